@@ -1,0 +1,40 @@
+//go:build verif
+
+package service
+
+import (
+	"github.com/metrico/qryn/writer/utils/promise"
+)
+
+// Verification hooks (build tag `verif`). VerifTrace, when set by a test harness, is called at the
+// linearization points of InsertServiceV2 while svc.mtx is held (Append, Swap) or from the single
+// worker goroutine that owns the state (Release, ConnFail).
+const (
+	VerifEvAppend   = 1
+	VerifEvSwap     = 2
+	VerifEvRelease  = 3
+	VerifEvConnFail = 4
+)
+
+type VerifEvent struct {
+	Ev       int
+	Svc      *InsertServiceV2
+	Table    string
+	Req      any
+	Promise  *promise.Promise[uint32]
+	Promises []*promise.Promise[uint32]
+	N        int
+	Size     int64
+	NResults int
+	Err      error
+}
+
+var VerifTrace func(e VerifEvent)
+
+func (svc *InsertServiceV2) vtrace(ev int, req any, p *promise.Promise[uint32], ps []*promise.Promise[uint32], n int, err error) {
+	if VerifTrace == nil {
+		return
+	}
+	VerifTrace(VerifEvent{Ev: ev, Svc: svc, Table: svc.insertRequest, Req: req, Promise: p, Promises: ps,
+		N: n, Size: svc.size, NResults: len(svc.results), Err: err})
+}
